@@ -197,6 +197,106 @@ def r06_6(ctx: Ctx):
                      key=f'{rid}::{c.short}::calls::{f.name}')
 
 
+def r06_5_all_items(ctx: Ctx):
+    """Every search item the library constructs is Item(Point(GetImage(t)), t): the stored point is the evolvent
+    image of the stored coordinate, wherever the item is built (seeding, selection, or any other routine)."""
+    rid = 'R06.5'
+    roles = C.roles_of(ctx)
+    gi = ctx.ix.func('Evolvent.GetImage')
+    item = ctx.ix.cls('SearchDataItem')
+    n = 0
+    for q, f in sorted(ctx.ix.funcs.items()):
+        if f.kind != 'function' or not f.module.name.startswith(('iOpt.method', 'iOpt.solver')):
+            continue
+        if f.cls is not None and (f.cls.is_subclass_of(item) or f.cls is item):
+            continue
+        if not any(isinstance(nd, ast.Call) and any(o.kind == 'cls' and o.cls is not None and
+                                                    o.cls.is_subclass_of(item)
+                                                    for o in ctx.pta.expr_pts(f, nd.func))
+                   for nd in ast.walk(f.node)):
+            continue
+        ex = ctx.explorer()
+        try:
+            paths = C.normal_paths(ex.explore(f))
+        except AnalysisError:
+            raise
+        for p in paths:
+            for ne in C.new_events(p):
+                if not ne.d['cls'].is_subclass_of(item) or ne.func is not f:
+                    continue
+                n += 1
+                t = C.arg(ne, 1, 'x')
+                pt = C.arg(ne, 0, 'y')
+                pne = C.new_event_of(p, pt) if pt is not None else None
+                img_t = None
+                if pne is not None:
+                    a0 = C.arg(pne, 0, 'floatVariables')
+                    ce = C.call_event_of_result(p, a0) if a0 is not None else None
+                    if ce is not None and any(isinstance(c, FuncInfo) and c.qualname == gi.qualname
+                                              for c in ce.d['callees']):
+                        img_t = ce.d['args'][0] if ce.d['args'] else None
+                ok = isinstance(img_t, RF) and isinstance(t, RF) and key_of(img_t) == key_of(t)
+                ctx.check(ok, rid, f.short, f.loc(ne.node),
+                          'the item is built as Item(Point(GetImage(t)), t)',
+                          f'a search item is built with coordinate {C.fmt(t)} and a point that is not '
+                          f'Point(Evolvent.GetImage(<the same coordinate>)) '
+                          f'({"GetImage(" + C.fmt(img_t) + ")" if img_t is not None else C.fmt(pt)}): the stored '
+                          f'point is not the evolvent image of the stored coordinate',
+                          key=f'{rid}::{f.short}::item-not-image')
+    ctx.floor(rid, 'search item constructions in the library', n, 4)
+
+
+def r06_7_hint_source(ctx: Ctx):
+    """The renewal routine (hinted insertion + lengths + characteristics) is entered only from the iteration driver,
+    with the pair produced by the selection routine: that is what guarantees x_left < x_new < x_hint strictly.  A hint
+    obtained from the covering lookup only guarantees x_left <= x_new < x_hint."""
+    rid = 'R06.7'
+    roles = C.roles_of(ctx)
+    try:
+        rn, drv, sd = roles.renewal, roles.iter_driver, roles.seeding
+    except RoleMissing as e:
+        ctx.fail(rid, f'role {e.role}', 'iOpt/', str(e), key=f'{rid}::role::{e.role}')
+        return
+    sel = roles.selection
+    lst = roles.listener_methods()
+    rq = roles.fq(rn)
+
+    def inl(f: FuncInfo, st) -> bool:
+        q = roles.fq(f)
+        if f is rn or f is sel or q in lst:
+            return False
+        return rq in roles.reach(f)
+    ex = ctx.explorer(inline=inl, max_paths=20000)
+    n = 0
+    for p in C.normal_paths(ex.explore(drv)):
+        sels = [e for e in p.events if e.kind == 'call' and sel in e.d['callees'] and not e.d.get('inlined')]
+        for r_ in [e for e in p.events if e.kind == 'call' and rn in e.d['callees'] and not e.d.get('inlined')]:
+            n += 1
+            a = r_.d['args']
+            ok = False
+            for s_ in sels:
+                if p.events.index(s_) > p.events.index(r_):
+                    continue
+                res = s_.d['result']
+                exp0 = key_of(atomv(('sub', key_of(res), RF.const(0).key(), 0)))
+                exp1 = key_of(atomv(('sub', key_of(res), RF.const(1).key(), 0)))
+                if len(a) >= 2 and key_of(a[0]) == exp0 and key_of(a[1]) == exp1:
+                    ok = True
+            ctx.check(ok, rid, r_.func.short, r_.loc(),
+                      'the renewal routine receives the (new, old) pair of the selection routine',
+                      f'{r_.func.short} enters the renewal routine {rn.short} '
+                      f'not with the (new, popped interval) pair of the selection routine: the inserted coordinate is '
+                      f'not the guarded interior point of the hinted interval, so it can coincide with a stored '
+                      f'coordinate (zero length, list not strictly increasing)',
+                      key=f'{rid}::{r_.func.short}::renewal-without-selection',
+                      detail={'arguments': [C.fmt(x) for x in a[:2]]})
+    for c in roles.callers_of(rn):
+        if roles.fq(c) not in roles.reach(drv) and c is not drv:
+            ctx.fail(rid, c.short, c.loc(), f'{c.short} calls the renewal routine outside the iteration driver',
+                     key=f'{rid}::{c.short}::calls-renewal')
+    ctx.floor(rid, 'renewal calls on paths of the iteration driver', n, 1)
+
+
 def r06_8(ctx: Ctx):
     rid = 'R06.8'
     ctx.rule(rid, 'who may write stored items: links only in the insert routines; the coordinate only in the '
@@ -304,6 +404,7 @@ def check(ctx: Ctx):
         c02.r02_1(ctx)
         c02.r02_8_selection(ctx)
         c04.r04_4(ctx)
+        r06_5_all_items(ctx)
     if C.want(ctx, 'R06.6'):
         r06_6(ctx)
     if C.want(ctx, 'R06.7'):
@@ -311,5 +412,6 @@ def check(ctx: Ctx):
                           '(R02.4 interior guard + R02.8 hint identity), re-run here')
         from . import c02
         c02.r02_4(ctx)
+        r06_7_hint_source(ctx)
     if C.want(ctx, 'R06.8'):
         r06_8(ctx)
